@@ -46,7 +46,7 @@ def run(chk):
     cfg = "TryTableMC_quick.cfg" if quick else "TryTableMC_thorough.cfg"
     stride = (3, chk.seed) if quick else (4, chk.seed)
     chk.bounds = dict(cfg=cfg, replay_stride=stride[0], tries="1..%d" % (2 if quick else 3), handlers="1..2 lists; 0-2 typed, with/without catch-all; addrs {0,3,130}",
-                      insns="133 (odd, padded) and 134 (even)")
+                      insns="133 (odd, padded) and 134 (even); random tables: 20..400 code units, plus one method of 66000..70000 code units per batch (try start and handler addresses beyond 65535)")
     r, states = tlc.dump_states("TryTableMC", cfg, stride=stride, timeout=3000, heap="6g")
     chk.model(r, "TryTableMC/" + cfg)
     n = 0
@@ -108,6 +108,11 @@ def run(chk):
             elif k < 0.35:                                # one range over the whole method
                 tries = [(0, insns, rnd.randrange(1, nh + 1))]
             cases.append((insns, tries, hs))
+        # one method longer than 65536 code units: start_addr is a 32-bit field, handler addresses are uleb128 (C08f)
+        insns = rnd.randrange(66000, 70000)
+        far = 65536 + rnd.randrange(0, 300)
+        cases.append((insns, [(10, 5, 1), (far, rnd.randrange(1, 6), 2), (insns - 3, 3, 1)],
+                      [dict(typed=[(1, rnd.randrange(insns))], all=rnd.choice([-1, 65600])), dict(typed=[(2, far + 8)], all=far + 9)]))
         obs = observe(dex, cases)
         for case, ob in zip(cases, obs):
             recs.append(dict(insns=case[0], tries=[list(t) for t in case[1]], hs=[dict(typed=[list(p) for p in h["typed"]], all=h["all"]) for h in case[2]],
